@@ -274,7 +274,7 @@ def placements(libs):
     out = []
     uid = 0
     for e in errs:
-        for ctx in ("top", "fn", "loop", "branch", "else", "include", "fn-loop-branch", "twice"):
+        for ctx in ("top", "fn", "loop", "branch", "else", "include", "nested-include", "fn-loop-branch", "twice"):
             for exit_on in (False, True, "toggled", "on+set_error", "off+set_error"):
                 def fresh():
                     return dict(e)
@@ -304,6 +304,15 @@ def placements(libs):
                 elif ctx == "include":
                     uid += 1
                     body = [("include", os.path.join(SCRATCH, "inc_pl%d.ds" % uid), core)]
+                elif ctx == "nested-include":
+                    # an included file that includes another one: the failing command sits in the innermost file, the middle file
+                    # fails before and after the directive (seed C10-w6-m1: every instruction an include contributed was stamped
+                    # with the path of the DIRECTLY included file, so errors of the inner file named the middle one)
+                    uid += 1
+                    body = [("include", os.path.join(SCRATCH, "inc_pl%d.ds" % uid),
+                             [("site", [I("hfail", ["two words"], None)]), ("site", site_query()),
+                              ("include", os.path.join(SCRATCH, "inc_pl%d_inner.ds" % uid), core),
+                              ("site", [I("hfail", ["boom"], None)]), ("site", site_query())])]
                 elif ctx == "fn-loop-branch":
                     fdefs = {"f1": [("for", 2, [("if", True, core, None)])]}
                     body = [("call", "f1"), ("call", "f1")]
@@ -459,7 +468,13 @@ def run(ck):
             main = gen_block(rng, 0, libs, list(fdefs), stats, allow_exit)
             if rng.random() < 0.25:
                 pos = rng.randint(0, len(main))
-                main.insert(pos, ("include", os.path.join(SCRATCH, "inc%d.ds" % made), gen_block(rng, 1, libs, list(fdefs), stats, allow_exit)))
+                inc_body = gen_block(rng, 1, libs, list(fdefs), stats, allow_exit)
+                if rng.random() < 0.4:     # the included file includes a further file (and that one sometimes a third)
+                    inner = gen_block(rng, 1, libs, list(fdefs), stats, allow_exit)
+                    if rng.random() < 0.3:
+                        inner.insert(rng.randint(0, len(inner)), ("include", os.path.join(SCRATCH, "incnn%d.ds" % made), gen_block(rng, 1, libs, [], stats, allow_exit)))
+                    inc_body.insert(rng.randint(0, len(inc_body)), ("include", os.path.join(SCRATCH, "incn%d.ds" % made), inner))
+                main.insert(pos, ("include", os.path.join(SCRATCH, "inc%d.ds" % made), inc_body))
                 if rng.random() < 0.3:
                     main.insert(rng.randint(0, len(main)), ("include", os.path.join(SCRATCH, "incb%d.ds" % made), gen_block(rng, 1, libs, [], stats, allow_exit)))
             main.append(("site", site_query()))
@@ -483,7 +498,7 @@ def run(ck):
         "evaluations": n_total[0],
         "distinct_nontrivial": len(nontriv),
         "rule": "every error kind (trigger_error, assert_error, harness command, eval-implemented alias, calibrated failing library and "
-                "script-implemented commands) x 8 placements (top level, function body, loop body, taken branch, else branch, included file, "
+                "script-implemented commands) x 9 placements (top level, function body, loop body, taken branch, else branch, included file, file included by an included file, "
                 "function+loop+branch called twice, followed by a later error) x exit_on_error off / on / toggled x text / file (%d cases); "
                 "every sequence of <= %d top-level sites over 7 site kinds incl. set_error (%d); %d random structured programs (<= 3 functions, nesting <= 3, "
                 "includes, direct on_error calls, exit_on_error toggles in 35%%, 40%% from file); non-trivial = distinct program executing >= 2 "
@@ -524,5 +539,5 @@ def _copy(block):
 
 
 def _retarget(block, suffix):
-    """give the included files of a copied program their own paths (cases run in parallel)"""
-    return [("include", st[1] + suffix, st[2]) if st[0] == "include" else st for st in block]
+    """give the included files of a copied program their own paths (cases run in parallel), at every include depth"""
+    return [("include", st[1] + suffix, _retarget(st[2], suffix)) if st[0] == "include" else st for st in block]
